@@ -107,6 +107,24 @@ def parseHello (toks : List String) : Option ClientHello :=
     pure ⟨minor, r, s, c, m, exts⟩
   | _ => none
 
+/-- frame items: `p<pad>G` (ping) or `p<pad>C<off>.<hex>.<ko>.<kl>` -/
+def parseItem (t : String) : Option Item :=
+  match t.toList with
+  | 'p' :: rest =>
+    let body := String.ofList rest
+    if body.endsWith "G" then do
+      let pad ← (body.dropEnd 1).toString.toNat?
+      pure ⟨pad, .ping⟩
+    else match body.splitOn "C" with
+      | [pd, fr] =>
+        (match fr.splitOn "." with
+         | [o, h, a, b] => do
+           let pad ← pd.toNat?; let off ← o.toNat?; let d ← unhx h; let ko ← a.toNat?; let kl ← b.toNat?
+           pure ⟨pad, .crypto off d ko kl⟩
+         | _ => none)
+      | _ => none
+  | _ => none
+
 def handle (line : String) : String :=
   match words line with
   | ["tls", h] =>
@@ -148,6 +166,10 @@ def handle (line : String) : String :=
     match parseBlocks bl with
     | some bs => resStr (extractSni (newLinear bs))
     | none => "bad-op"
+  | ["fenc", tp, its] =>
+    match tp.toNat?, (if its = "-" then some [] else (its.splitOn ",").mapM parseItem) with
+    | some t, some items => s!"bytes={hx (encodeItems items t)} frames={blocksStr (cryptoBlocks items)}"
+    | _, _ => "bad-op"
   | ["uvar", h] =>
     match unhx h with
     | some b => (match uvarint b with
